@@ -21,7 +21,7 @@ CHECKS = {
  "C11": ("proof", AI + "; summary equivalence (oddness); per-quadrant boxes with value partitioning of the quotient; cell-wise interval automatic differentiation of the idealised result expression against an interval oracle; abstract re-execution of atan / its series on the quotient symbol; linear bound of the quotient", "atan odd; |atan_lib - atan| <= 5e-5 on all of [0,2^63) (17469 cells); atan2 axis values, (0,0) NaN, quadrant signs, and atan2 == atan(q) + quadrant offset hence within 8e-5; |atan| <= fixpidiv2 by series-of-quotient composition; x <= y => atan x <= atan y + 2 from exact cell-end values, rounding budgets and exact segment-end results: every clause decided", "5 (C11), 6"),
  "C12": ("proof", AI + "; region checks on in-program relations; verified loop summary isqrt(N) for the abacus sqrt loop; cell-wise interval automatic differentiation of the idealised result expression (incl. the floating sqrt / the integer square root) against an interval oracle; direction (monotonicity) tags propagated through the path's instructions", "NaN exactly for |x| > 1; asin odd, acos within 1 ulp of pi/2 - asin, and the 2-ulp/4-ulp backward/forward accuracy clause, for the std::sqrt and the abacus builds (1317 + 1321 cells + 160 arguments near 1 each); asin non-decreasing by direction tags of every SSA value (monotone compositions) plus junction values: every clause decided", "5 (C12), 6"),
  "C13": ("proof", AI + "; loop unrolling with control-aware joins; shape lemma on the value-numbered float expression; inductive loop invariant of the abacus loop checked by abstract execution of one iteration per digit position from a symbolic loop-head state", "NaN below 0, 0 at 0, result in [0,2^16] on the domain for both algorithms; < 1 ulp, monotone, exact squares: std::sqrt algorithm by shape lemma, abacus loop == floor(sqrt(65536 raw)) by the invariant a^2 <= N < (a + 2^(k+1))^2 (32 digit positions, 48 entry classes): every clause decided", "5 (C13), 6"),
- "C14": ("other", AI + "; summary equivalence (symmetry); per-instruction unsigned-wrap tracking", "symmetry (all builds; the abacus loop enters as the verified summary isqrt(N)), never NaN/negative, no intermediate wrap in hypot's own arithmetic (one recorded finding: left-shift branch). NOT decided: 2 ulp / 1.5e-4 accuracy", "5 (C14), 6, 7"),
+ "C14": ("other", AI + "; summary equivalence (symmetry); per-instruction unsigned-wrap tracking; symbolic exact-real value (polynomial identity) plus interval propagation of rounding noise for the accuracy clause", "symmetry (all builds; the abacus loop enters as the verified summary isqrt(N)), never NaN/negative, no intermediate wrap in hypot's own arithmetic (one recorded finding: left-shift branch); accuracy 2 ulp / relative 1.5e-4: the exact-real value of every path is identically sqrt(a^2+b^2) (polynomial identity) and the propagated rounding deviation stays within the bound on 11.5k boxes per build (paths of the recorded wrap excluded)", "5 (C14), 6, 7"),
  "C15": ("proof", AI + "; region checks and summary equivalence", "floor/ceil bracket, integrality, fixed points, ceil == -floor(-x) on the whole stated domain", "5 (C15)"),
  "C16": ("translation_validation", AI + "; summary equivalence of mixed-type operator vs explicitly promoted program; static_assert type witnesses", "9 carriers x 4 operators x 2 orders + 36 compound forms + double operand order", "5 (C16)"),
  "C17": ("proof", AI + "; summary equivalence / region checks on composed wrappers", "commutativity, a-b==a+(-b), identities, associativity and cancellation on the no-NaN regions; n-fold sum by instances + induction lemma", "5 (C17)"),
